@@ -19,7 +19,8 @@ EXPLANATION = (
     "silently (a path without a yield must raise, defer the value to the documented job pool, warn about empty "
     "results, or be a zero-iteration of an inner result loop); (d) statelessness -- no loop-carried local "
     "definitions and no write to self in the loop body, so the output for selected values cannot depend on "
-    "interleaved unselected ones.  Does not decide which values are selected.")
+    "interleaved unselected ones; (e) every True exit of Write.run's selection predicate has established the condition under "
+    "which the body calls data.write, or that the data is a string.  Does not decide which values are selected.")
 RULES = {
     "C10-a": "identity: a passed value is the loop variable itself, never rebound, never a rebuilt tuple",
     "C10-b": "PURE: no mutation through the value or its aliases and no file-system/subprocess effect on a PASS path",
